@@ -1,12 +1,12 @@
 package driver
 
 import (
-	"runtime"
 	"context"
 	"encoding/hex"
 	"errors"
 	"fmt"
 	"io"
+	"runtime"
 	"strconv"
 	"strings"
 	"sync"
@@ -259,7 +259,7 @@ func mdOf(p [][2]string) metadata.MD {
 }
 
 func mkErr(op HOp) error {
-	if op.Code == 0 && op.Ek == "" {
+	if op.Code == 0 && (op.Ek == "" || op.Ek == "unenc") {
 		return nil
 	}
 	switch op.Ek {
@@ -362,6 +362,7 @@ func (w *world) runUnary(ctx context.Context, in *wrapperspb.BytesValue) (any, e
 	tr.emit(e)
 	var reply []byte = in.GetValue()
 	var rerr error
+	badReply := false // the handler returns (a reply the codec refuses, nil)
 	done := false
 	for !done {
 		var op HOp
@@ -405,6 +406,7 @@ func (w *world) runUnary(ctx context.Context, in *wrapperspb.BytesValue) (any, e
 				reply = payBytes(op.Pay)
 			}
 			rerr = mkErr(op)
+			badReply = op.Ek == "unenc"
 			done = true
 		default:
 			// stream-only ops are ignored in unary handlers
@@ -415,6 +417,9 @@ func (w *world) runUnary(ctx context.Context, in *wrapperspb.BytesValue) (any, e
 	code, msg, nd := expectedStatus(rerr)
 	he.Code, he.Msg, he.N = code, tok([]byte(msg)), nd
 	he.Pay = tok(reply)
+	if badReply && rerr == nil {
+		he.Pay = "@unenc"
+	}
 	if ctx.Err() != nil {
 		he.Res = "ctxdone"
 	}
@@ -425,6 +430,9 @@ func (w *world) runUnary(ctx context.Context, in *wrapperspb.BytesValue) (any, e
 	w.mu.Unlock()
 	if rerr != nil {
 		return nil, rerr
+	}
+	if badReply {
+		return "not a protobuf message", nil
 	}
 	return &wrapperspb.BytesValue{Value: reply}, nil
 }
